@@ -693,6 +693,8 @@ impl BytecodeVM {
     /// This method enables step-by-step execution for host-controlled interruption.
     #[inline]
     pub fn step(&mut self, interp: &mut Interpreter) -> VmStepResult {
+        #[cfg(feature = "verif-hooks")]
+        crate::verif_hooks::vm_instr();
         let Some(op) = self.fetch() else {
             // End of bytecode - return last result or undefined
             let result = self
